@@ -45,6 +45,26 @@ Theorem C20_date_cell : forall s d, parse_iso s = Some d -> iso_of d = s.
 Proof. exact c20_date_cell. Qed.
 Print Assumptions C20_date_cell.
 
+(* A date-time cell may also be given in the other plain ISO 8601 spellings that dateutil.parser.parse and
+   datetime.fromisoformat both read (`parse_iso_any`: 'T' for the blank, no seconds, the date alone).  Whatever the
+   accepted spelling, the cell that is written back (`iso_of d` = str(datetime)) reads as the same date-time, in the
+   canonical reading and therefore in any (the text itself comes back only for the canonical spelling: C20_date_cell). *)
+Theorem C20_date_spellings : forall s d, parse_iso_any s = Some d ->
+  parse_iso (iso_of d) = Some d /\ parse_iso_any (iso_of d) = Some d.
+Proof. exact c20_date_spellings. Qed.
+Print Assumptions C20_date_spellings.
+
+Example C20_date_spellings_example :
+  (* 2021-03-04 05:06:00 *) parse_iso_any [50; 48; 50; 49; 45; 48; 51; 45; 48; 52; 32; 48; 53; 58; 48; 54; 58; 48; 48]%N = Some (mkdt 2021 3 4 5 6 0) /\
+  (* 2021-03-04T05:06:00 *) parse_iso_any [50; 48; 50; 49; 45; 48; 51; 45; 48; 52; 84; 48; 53; 58; 48; 54; 58; 48; 48]%N = Some (mkdt 2021 3 4 5 6 0) /\
+  (* 2021-03-04 05:06    *) parse_iso_any [50; 48; 50; 49; 45; 48; 51; 45; 48; 52; 32; 48; 53; 58; 48; 54]%N = Some (mkdt 2021 3 4 5 6 0) /\
+  (* 2021-03-04T05:06    *) parse_iso_any [50; 48; 50; 49; 45; 48; 51; 45; 48; 52; 84; 48; 53; 58; 48; 54]%N = Some (mkdt 2021 3 4 5 6 0) /\
+  (* 2021-03-04          *) parse_iso_any [50; 48; 50; 49; 45; 48; 51; 45; 48; 52]%N = Some (mkdt 2021 3 4 0 0 0) /\
+  (* 2021-03-04X05:06:00 *) parse_iso_any [50; 48; 50; 49; 45; 48; 51; 45; 48; 52; 88; 48; 53; 58; 48; 54; 58; 48; 48]%N = None /\
+  (* 2021-13-04          *) parse_iso_any [50; 48; 50; 49; 45; 49; 51; 45; 48; 52]%N = None /\
+  (* 2021-03-04T05:06:0  *) parse_iso_any [50; 48; 50; 49; 45; 48; 51; 45; 48; 52; 84; 48; 53; 58; 48; 54; 58; 48]%N = None.
+Proof. vm_compute. repeat split. Qed.
+
 (* the domain is inhabited and the round trip computes: the packaged configuration, latin_1, blocked and unblocked, a cell
    with a comma, a quote and spaces, empty cells, DE4 = "0", DE12 = "2021-03-04 05:06:07" *)
 Definition ex_cd : codec :=
